@@ -5,6 +5,7 @@
 pub mod alloc;
 pub mod ctx;
 pub mod gen;
+pub mod iana;
 pub mod monitors;
 pub mod oracle;
 pub mod refenc;
